@@ -207,7 +207,9 @@ func init() {
 	I[rtPkg+"ClockReading"] = func(ex *Exec, a []Value) Value {
 		i := a[0].(*Term)
 		if !i.IsConst() || i.SignedVal() < 1 || int(i.SignedVal()) > len(ex.readings) {
-			panic(pathEnd{"clock reading not taken on this path"})
+			// a harness that asks for a reading the code under test did not take would silently lose
+			// the path: report it instead (INCONCLUSIVE)
+			panic(unsupported(fmt.Sprintf("harness asked for clock reading %v but the path took %d readings", i, len(ex.readings))))
 		}
 		return ex.readings[i.SignedVal()-1]
 	}
@@ -238,7 +240,7 @@ func init() {
 	I[rtPkg+"RunGo"] = func(ex *Exec, a []Value) Value {
 		i := a[0].(*Term)
 		if !i.IsConst() || int(i.SignedVal()) >= len(ex.deferredGo) {
-			panic(pathEnd{"RunGo: no such goroutine"})
+			panic(unsupported("harness asked to run a goroutine the code under test did not start"))
 		}
 		nframes, depth := len(ex.frames), ex.depth
 		func() {
